@@ -216,7 +216,8 @@ def eager_core():
     for zdecl in (["M", "N"], ["N", "M"]):
         for adecl in (["K", "M"], ["M", "K"]):
             decl = {"A": adecl, "B": ["K", "N"], "Z": zdecl}
-            y = mk_yaml(decl, ["Z[m, n] = A[k, m] * B[k, n]"], lo={"Z": lo}, st={"Z": {"space": [], "time": lo}})
+            expr = "Z[%s] = A[%s] * B[k, n]" % (", ".join(r.lower() for r in zdecl), ", ".join(r.lower() for r in adecl))
+            y = mk_yaml(decl, [expr], lo={"Z": lo}, st={"Z": {"space": [], "time": lo}})
             fmt = "format:\n" + "".join("  %s:\n    default:\n      rank-order: [%s]\n" % (t, ", ".join(concord(decl[t], lo))) +
                                           "".join("      %s:\n        format: C\n        cbits: 32\n        pbits: 32\n" % r for r in concord(decl[t], lo)) for t in decl)
             arch = ("architecture:\n  Accel:\n  - name: System\n    attributes:\n      clock_frequency: 3\n    local:\n    - name: MainMemory\n      class: DRAM\n      attributes:\n        bandwidth: 5\n"
